@@ -80,9 +80,10 @@ VARIABLES val,      \* [a, b] -> current value                              (Val
           nstim,
           chg, trg, \* ghost: per lane, state changes made / lifecycle handlers instantiated
           old,      \* ghost: per value lane, the value it had before the latest change
-          m0        \* the initial map
+          m0,       \* the initial map
+          g0        \* ghost: the stimulus being handled and the state it started from (for the reference semantics)
 
-vars == <<val, map, pv, pm, pc, stack, modf, status, cur, pending, prog, acts, nstim, chg, trg, old, m0>>
+vars == <<val, map, pv, pm, pc, stack, modf, status, cur, pending, prog, acts, nstim, chg, trg, old, m0, g0>>
 
 -----------------------------------------------------------------------------
 (* Programs *)
@@ -162,7 +163,7 @@ Op(o) == Running /\ Hd.op = o
 
 Log(e) == acts' = [acts EXCEPT ![Len(acts)].ev = Append(@, e)]
 Fin(f) == acts' = [acts EXCEPT ![Len(acts)].fin = f]
-LogFin(e, f) == acts' = [acts EXCEPT ![Len(acts)].ev = Append(@, e), ![Len(acts)].fin = f]
+Failed(f) == acts' = [acts EXCEPT ![Len(acts)].fin = f, ![Len(acts)].fl = 1]     \* fl: a handler failed during this stimulus
 
 Init == /\ m0 \in InitMaps
         /\ val = [a |-> A0, b |-> B0] /\ map = m0
@@ -172,21 +173,22 @@ Init == /\ m0 \in InitMaps
         /\ acts = <<>> /\ nstim = 0
         /\ chg = [l \in {"c", "a", "b", "m"} |-> 0] /\ trg = [l \in {"c", "a", "b", "m"} |-> 0]
         /\ old = [a |-> None, b |-> None]
+        /\ g0 = [k |-> "", frame |-> <<>>, val |-> val, map |-> map, pending |-> <<>>]
 
 -----------------------------------------------------------------------------
 (* Leaves: one action per HandlerAction::step of a leaf *)
 
 StepEntry == /\ Op("entry") /\ Log(Hd.e) /\ stack' = PopHead
-             /\ UNCHANGED <<val, map, pv, pm, pc, modf, status, cur, pending, prog, nstim, chg, trg, old, m0>>
+             /\ UNCHANGED <<val, map, pv, pm, pc, modf, status, cur, pending, prog, nstim, chg, trg, old, m0, g0>>
 
 StepEff == /\ Op("eff") /\ Log(<<"eff", Hd.s, Hd.x>>) /\ stack' = PopHead
-           /\ UNCHANGED <<val, map, pv, pm, pc, modf, status, cur, pending, prog, nstim, chg, trg, old, m0>>
+           /\ UNCHANGED <<val, map, pv, pm, pc, modf, status, cur, pending, prog, nstim, chg, trg, old, m0, g0>>
 
 StepGet == /\ Op("get") /\ Log(<<"get", Hd.l, val[Hd.l]>>) /\ stack' = PopHead
-           /\ UNCHANGED <<val, map, pv, pm, pc, modf, status, cur, pending, prog, nstim, chg, trg, old, m0>>
+           /\ UNCHANGED <<val, map, pv, pm, pc, modf, status, cur, pending, prog, nstim, chg, trg, old, m0, g0>>
 
 StepSnap == /\ Op("snap") /\ Log(<<"snap", val.a, val.b, Pairs(map)>>) /\ stack' = PopHead
-            /\ UNCHANGED <<val, map, pv, pm, pc, modf, status, cur, pending, prog, nstim, chg, trg, old, m0>>
+            /\ UNCHANGED <<val, map, pv, pm, pc, modf, status, cur, pending, prog, nstim, chg, trg, old, m0, g0>>
 
 \* ValueLaneSet::step : lane.set(v) (content replaced, previous := Some(old)), Modification::of(id)
 StepSet == /\ Op("set")
@@ -197,7 +199,7 @@ StepSet == /\ Op("set")
               /\ chg' = [chg EXCEPT ![l] = @ + 1]
               /\ modf' = [l |-> l, trig |-> TRUE]
            /\ stack' = PopHead
-           /\ UNCHANGED <<map, pm, pc, status, cur, pending, prog, acts, nstim, trg, m0>>
+           /\ UNCHANGED <<map, pm, pc, status, cur, pending, prog, acts, nstim, trg, m0, g0>>
 
 \* MapLaneUpdate::step : MapStoreInner.update
 StepUpd == /\ Op("upd")
@@ -206,7 +208,7 @@ StepUpd == /\ Op("upd")
            /\ chg' = [chg EXCEPT !["m"] = @ + 1]
            /\ modf' = [l |-> "m", trig |-> TRUE]
            /\ stack' = PopHead
-           /\ UNCHANGED <<val, pv, pc, status, cur, pending, prog, acts, nstim, trg, old, m0>>
+           /\ UNCHANGED <<val, pv, pc, status, cur, pending, prog, acts, nstim, trg, old, m0, g0>>
 
 \* MapLaneRemove::step : MapStoreInner.remove leaves `previous` alone when the key is absent,
 \* the step still reports Modification::of(id)
@@ -218,7 +220,7 @@ StepRem == /\ Op("rem")
                 ELSE UNCHANGED <<map, pm, chg>>
            /\ modf' = [l |-> "m", trig |-> TRUE]
            /\ stack' = PopHead
-           /\ UNCHANGED <<val, pv, pc, status, cur, pending, prog, acts, nstim, trg, old, m0>>
+           /\ UNCHANGED <<val, pv, pc, status, cur, pending, prog, acts, nstim, trg, old, m0, g0>>
 
 \* MapLaneClear::step : previous := Clear(take(content)) even when the map is already empty
 StepClr == /\ Op("clr")
@@ -227,7 +229,7 @@ StepClr == /\ Op("clr")
            /\ chg' = [chg EXCEPT !["m"] = @ + 1]
            /\ modf' = [l |-> "m", trig |-> TRUE]
            /\ stack' = PopHead
-           /\ UNCHANGED <<val, pv, pc, status, cur, pending, prog, acts, nstim, trg, old, m0>>
+           /\ UNCHANGED <<val, pv, pc, status, cur, pending, prog, acts, nstim, trg, old, m0, g0>>
 
 \* MapLaneTransformEntry::step : the four cases of MapStoreInner.transform_entry
 StepXf == /\ Op("xf")
@@ -246,7 +248,7 @@ StepXf == /\ Op("xf")
                   /\ chg' = [chg EXCEPT !["m"] = @ + 1] /\ modf' = [l |-> "m", trig |-> TRUE]
              ELSE UNCHANGED <<map, pm, chg, modf>>            \* NoChange: StepResult::done, no modification
           /\ stack' = PopHead
-          /\ UNCHANGED <<val, pv, pc, status, cur, pending, prog, acts, nstim, trg, old, m0>>
+          /\ UNCHANGED <<val, pv, pc, status, cur, pending, prog, acts, nstim, trg, old, m0, g0>>
 
 \* MapLaneDropOrTake: the keys to remove are fixed from the contents at the first step (sorted),
 \* then one remove per step, each reporting a modification
@@ -256,7 +258,7 @@ StepTakeDrop == /\ (Op("take") \/ Op("drop"))
                        del == IF Hd.op = "drop" THEN SubSeq(ks, 1, IF n < Len(ks) THEN n ELSE Len(ks))
                               ELSE SubSeq(ks, (IF n < Len(ks) THEN n ELSE Len(ks)) + 1, Len(ks))
                    IN stack' = ReplaceHead([i \in 1..Len(del) |-> Rem(del[i][1])])
-                /\ UNCHANGED <<val, map, pv, pm, pc, modf, status, cur, pending, prog, acts, nstim, chg, trg, old, m0>>
+                /\ UNCHANGED <<val, map, pv, pm, pc, modf, status, cur, pending, prog, acts, nstim, chg, trg, old, m0, g0>>
 
 \* DoCommand::step : prev_command := Some(x), Modification::of(id)
 StepDoCmd == /\ Op("docmd")
@@ -264,19 +266,19 @@ StepDoCmd == /\ Op("docmd")
              /\ chg' = [chg EXCEPT !["c"] = @ + 1]
              /\ modf' = [l |-> "c", trig |-> TRUE]
              /\ stack' = PopHead
-             /\ UNCHANGED <<val, map, pv, pm, status, cur, pending, prog, acts, nstim, trg, old, m0>>
+             /\ UNCHANGED <<val, map, pv, pm, status, cur, pending, prog, acts, nstim, trg, old, m0, g0>>
 
 \* ValueLaneSync / MapLaneSync::step : Modification::no_trigger(id)
 StepSync == /\ Op("sync")
             /\ modf' = [l |-> Hd.l, trig |-> FALSE]
             /\ stack' = PopHead
-            /\ UNCHANGED <<val, map, pv, pm, pc, status, cur, pending, prog, acts, nstim, chg, trg, old, m0>>
+            /\ UNCHANGED <<val, map, pv, pm, pc, status, cur, pending, prog, acts, nstim, chg, trg, old, m0, g0>>
 
 \* Suspend::step : action_context.spawn_suspend(future)
 StepSusp == /\ Op("susp")
             /\ pending' = Append(pending, [s |-> Hd.s, p |-> Hd.p])
             /\ stack' = PopHead
-            /\ UNCHANGED <<val, map, pv, pm, pc, modf, status, cur, prog, acts, nstim, chg, trg, old, m0>>
+            /\ UNCHANGED <<val, map, pv, pm, pc, modf, status, cur, prog, acts, nstim, chg, trg, old, m0, g0>>
 
 StopFrame(b) == <<Entry("stop", <<"stop">>)>> \o Inst("stop", b.ops)
 
@@ -287,11 +289,11 @@ StopFrame(b) == <<Entry("stop", <<"stop">>)>> \o Inst("stop", b.ops)
 \*   anything else       -> AgentTaskError::UserCodeError, the agent ends without on_stop
 StepFail == /\ Op("fail")
             /\ stack' = <<>>
-            /\ CASE cur = "start" -> status' = "dead" /\ Fin("init_err")
-                 [] cur \in CmdKinds -> status' = "idle" /\ Fin("run")
-                 [] cur = "stop" -> status' = "done" /\ Fin("err")
-                 [] OTHER -> status' = "dead" /\ Fin("err")
-            /\ UNCHANGED <<val, map, pv, pm, pc, modf, cur, pending, prog, nstim, chg, trg, old, m0>>
+            /\ CASE cur = "start" -> status' = "dead" /\ Failed("init_err")
+                 [] cur \in CmdKinds -> status' = "idle" /\ Failed("run")
+                 [] cur = "stop" -> status' = "done" /\ Failed("err")
+                 [] OTHER -> status' = "dead" /\ Failed("err")
+            /\ UNCHANGED <<val, map, pv, pm, pc, modf, cur, pending, prog, nstim, chg, trg, old, m0, g0>>
 
 \* StepResult::Fail(StopInstructed): unwinds like a failure; the event loop ends and on_stop runs
 \* (in on_start: AgentInitError::FailedToStart; in on_stop: the agent ends normally)
@@ -305,7 +307,7 @@ StepStop == /\ Op("stopi")
                                     /\ stack' = <<StopFrame(b)>>
                                     /\ cur' = "stop"
                                     /\ UNCHANGED <<status, acts>>
-            /\ UNCHANGED <<val, map, pv, pm, pc, modf, pending, nstim, chg, trg, old, m0>>
+            /\ UNCHANGED <<val, map, pv, pm, pc, modf, pending, nstim, chg, trg, old, m0, g0>>
 
 -----------------------------------------------------------------------------
 (* run_handler: what happens with the modification a step reported *)
@@ -316,7 +318,7 @@ Push(f) == stack' = Append(stack, f)
 \* flags without TRIGGER_HANDLER (sync): collector.add_id only
 TriggerNone == /\ Waiting /\ ~modf.trig
                /\ modf' = NoMod
-               /\ UNCHANGED <<val, map, pv, pm, pc, stack, status, cur, pending, prog, acts, nstim, chg, trg, old, m0>>
+               /\ UNCHANGED <<val, map, pv, pm, pc, stack, status, cur, pending, prog, acts, nstim, chg, trg, old, m0, g0>>
 
 \* ValueLikeBranch::item_event: read_with_prev takes `previous`; on_event(new) and on_set(new, prev) are both
 \* created now; on_event.followed_by(on_set) is run to completion by a nested run_handler
@@ -331,7 +333,7 @@ TriggerValue == /\ Waiting /\ modf.trig /\ modf.l \in {"a", "b"}
                         /\ pv' = [pv EXCEPT ![l] = None]
                         /\ trg' = [trg EXCEPT ![l] = @ + 1]
                 /\ modf' = NoMod
-                /\ UNCHANGED <<val, map, pm, pc, status, cur, pending, acts, nstim, chg, old, m0>>
+                /\ UNCHANGED <<val, map, pm, pc, status, cur, pending, acts, nstim, chg, old, m0, g0>>
 
 \* MapLikeBranch::item_event: read_with_prev takes the MapLaneEvent, map_handler picks the lifecycle method
 TriggerMap == /\ Waiting /\ modf.trig /\ modf.l = "m" /\ pm.k # "none"
@@ -345,12 +347,12 @@ TriggerMap == /\ Waiting /\ modf.trig /\ modf.l = "m" /\ pm.k # "none"
               /\ pm' = NoPm
               /\ trg' = [trg EXCEPT !["m"] = @ + 1]
               /\ modf' = NoMod
-              /\ UNCHANGED <<val, map, pv, pc, status, cur, pending, acts, nstim, chg, old, m0>>
+              /\ UNCHANGED <<val, map, pv, pc, status, cur, pending, acts, nstim, chg, old, m0, g0>>
 
 \* item_event returns None: a remove that removed nothing
 TriggerMapNothing == /\ Waiting /\ modf.trig /\ modf.l = "m" /\ pm.k = "none"
                      /\ modf' = NoMod
-                     /\ UNCHANGED <<val, map, pv, pm, pc, stack, status, cur, pending, prog, acts, nstim, chg, trg, old, m0>>
+                     /\ UNCHANGED <<val, map, pv, pm, pc, stack, status, cur, pending, prog, acts, nstim, chg, trg, old, m0, g0>>
 
 \* CommandBranch::item_event: with_prev borrows prev_command (it is not taken)
 TriggerCmd == /\ Waiting /\ modf.trig /\ modf.l = "c" /\ pc # None
@@ -359,7 +361,7 @@ TriggerCmd == /\ Waiting /\ modf.trig /\ modf.l = "c" /\ pc # None
                     /\ Push(<<Entry("cmd", <<"cmd", pc>>)>> \o Inst("cmd", b.ops))
               /\ trg' = [trg EXCEPT !["c"] = @ + 1]
               /\ modf' = NoMod
-              /\ UNCHANGED <<val, map, pv, pm, pc, status, cur, pending, acts, nstim, chg, old, m0>>
+              /\ UNCHANGED <<val, map, pv, pm, pc, status, cur, pending, acts, nstim, chg, old, m0, g0>>
 
 \* the handler of this run_handler invocation completed: return to the interrupted one
 Return == /\ status = "run" /\ modf.l = "" /\ stack # <<>> /\ Top = <<>>
@@ -367,19 +369,20 @@ Return == /\ status = "run" /\ modf.l = "" /\ stack # <<>> /\ Top = <<>>
           /\ IF Len(stack) > 1 THEN UNCHANGED <<status, acts>>
              ELSE IF cur = "stop" THEN status' = "done" /\ Fin("ok")
              ELSE status' = "idle" /\ UNCHANGED acts
-          /\ UNCHANGED <<val, map, pv, pm, pc, modf, cur, pending, prog, nstim, chg, trg, old, m0>>
+          /\ UNCHANGED <<val, map, pv, pm, pc, modf, cur, pending, prog, nstim, chg, trg, old, m0, g0>>
 
 -----------------------------------------------------------------------------
 (* The agent task: one action per kind of TaskEvent *)
 
-NewAct(k, l, x, y) == acts' = Append(acts, [k |-> k, l |-> l, x |-> x, y |-> y, ev |-> <<>>, fin |-> "run"])
-Begin(k, frame) == status' = "run" /\ cur' = k /\ stack' = <<frame>>
+NewAct(k, l, x, y) == acts' = Append(acts, [k |-> k, l |-> l, x |-> x, y |-> y, ev |-> <<>>, fin |-> "run", fl |-> 0])
+Begin(k, frame, pend) == /\ status' = "run" /\ cur' = k /\ stack' = <<frame>>
+                         /\ g0' = [k |-> k, frame |-> frame, val |-> val, map |-> map, pending |-> pend]
 
 \* initialize_agent: lanes are initialised (no handler runs), then on_start
 StimStart == /\ status = "init"
              /\ \E b \in Choice("start") :
                    /\ prog' = [prog EXCEPT !["start"] = b]
-                   /\ Begin("start", <<Entry("start", <<"start">>)>> \o Inst("start", b.ops))
+                   /\ Begin("start", <<Entry("start", <<"start">>)>> \o Inst("start", b.ops), pending)
              /\ NewAct("start", "", 0, 0)
              /\ UNCHANGED <<val, map, pv, pm, pc, modf, pending, nstim, chg, trg, old, m0>>
 
@@ -393,7 +396,7 @@ StimLane == /\ status = "idle" /\ nstim < MaxStim
                                      [] st.k = "rem" -> Rem(st.x)
                                      [] st.k = "clr" -> Clr
                                      [] st.k = "sync" -> Sync(st.l)
-                                     [] st.k \in {"take", "drop"} -> TakeDrop(st.k, st.x)>>)
+                                     [] st.k \in {"take", "drop"} -> TakeDrop(st.k, st.x)>>, pending)
             /\ nstim' = nstim + 1
             /\ UNCHANGED <<val, map, pv, pm, pc, modf, pending, prog, chg, trg, old, m0>>
 
@@ -401,17 +404,17 @@ StimLane == /\ status = "idle" /\ nstim < MaxStim
 StimResume == /\ status = "idle" /\ nstim < MaxStim /\ pending # <<>>
               /\ \E i \in 1..Len(pending) :
                     /\ NewAct("resume", "", i, 0)
-                    /\ Begin("resume", Inst(pending[i].s, pending[i].p))
                     /\ pending' = SubSeq(pending, 1, i - 1) \o SubSeq(pending, i + 1, Len(pending))
+                    /\ Begin("resume", Inst(pending[i].s, pending[i].p),
+                             SubSeq(pending, 1, i - 1) \o SubSeq(pending, i + 1, Len(pending)))
               /\ nstim' = nstim + 1
               /\ UNCHANGED <<val, map, pv, pm, pc, modf, prog, chg, trg, old, m0>>
 
-\* every input ended: the loop exits and on_stop runs (suspended futures still pending are cancelled first:
-\* the agent does not leave its loop while one is outstanding)
+\* every lane input ended: the loop exits and on_stop runs; suspended futures that have not completed are dropped
 StimStop == /\ status = "idle"
             /\ \E b \in Choice("stop") :
                   /\ prog' = [prog EXCEPT !["stop"] = b]
-                  /\ Begin("stop", StopFrame(b))
+                  /\ Begin("stop", StopFrame(b), <<>>)
             /\ NewAct("stop", "", 0, 0)
             /\ pending' = <<>>
             /\ UNCHANGED <<val, map, pv, pm, pc, modf, nstim, chg, trg, old, m0>>
@@ -466,6 +469,72 @@ NothingLeftBehind == (status \in {"init", "idle", "done", "dead"}) => (stack = <
 
 \* a dead agent is only ever the result of a failure, and stays dead
 DeadIsFinal == (status = "dead") => acts[Len(acts)].fin \in {"err", "init_err"}
+
+-----------------------------------------------------------------------------
+(* The reference semantics: the recursion of docs/event_handler.md, written independently of the machine above.
+   "[If the handler] has affected the state of any other lane ... a check will be performed to determine if any event
+   handlers are triggered on the lane that the handler has modified.  If so, the process is then run recursively on
+   _that_ handler until it completes or fails.  Following that, execution of the original handler resumes."
+   There is no frame stack, no `previous` slot and no pending modification here: a change runs the lane's lifecycle
+   handlers (docs/lifecycle.md: on_event then on_set with the old value; on_update / on_remove / on_clear with the
+   old entry / contents) to completion, as a nested evaluation, before the rest of the interrupted handler; a failure
+   abandons every enclosing evaluation.  BigStepAgrees states that the machine (M) and this recursion (P) give the same
+   events, lane contents and suspended handlers for every stimulus. *)
+
+Body(s) == IF prog[s] = Unset THEN <<>> ELSE prog[s].ops
+ValueHandlers(l, new, prev) ==
+    LET se == IF l = "a" THEN "evA" ELSE "evB"
+        ss == IF l = "a" THEN "setA" ELSE "setB"
+    IN <<Entry(se, <<se, new>>)>> \o Inst(se, Body(se)) \o <<Entry(ss, <<ss, new, prev>>)>> \o Inst(ss, Body(ss))
+Handler(s, e) == <<Entry(s, e)>> \o Inst(s, Body(s))
+LogR(st, e) == [st EXCEPT !.ev = Append(@, e)]
+
+RECURSIVE Run(_, _)
+Run(ops, st) ==
+    IF ops = <<>> \/ st.ok # "ok" THEN st
+    ELSE LET o == Head(ops)  rest == Tail(ops) IN
+      CASE o.op = "entry" -> Run(rest, LogR(st, o.e))
+        [] o.op = "eff"   -> Run(rest, LogR(st, <<"eff", o.s, o.x>>))
+        [] o.op = "get"   -> Run(rest, LogR(st, <<"get", o.l, st.val[o.l]>>))
+        [] o.op = "snap"  -> Run(rest, LogR(st, <<"snap", st.val.a, st.val.b, Pairs(st.map)>>))
+        [] o.op = "set"   -> Run(rest, Run(ValueHandlers(o.l, o.x, st.val[o.l]), [st EXCEPT !.val[o.l] = o.x]))
+        [] o.op = "upd"   -> LET m1 == [st.map EXCEPT ![o.x] = o.y] IN
+                             Run(rest, Run(Handler("upd", <<"upd", o.x, Opt(st.map[o.x]), o.y, Pairs(m1)>>),
+                                           [st EXCEPT !.map = m1]))
+        [] o.op = "rem"   -> IF st.map[o.x] = 0 THEN Run(rest, st)
+                             ELSE LET m1 == [st.map EXCEPT ![o.x] = 0] IN
+                                  Run(rest, Run(Handler("rem", <<"rem", o.x, st.map[o.x], Pairs(m1)>>),
+                                                [st EXCEPT !.map = m1]))
+        [] o.op = "clr"   -> Run(rest, Run(Handler("clr", <<"clr", Pairs(st.map)>>), [st EXCEPT !.map = EmptyMap]))
+        [] o.op = "xf"    -> LET v == st.map[o.x] IN
+                             IF v # 0 /\ o.y = 1 THEN Run(<<Upd(o.x, v + 1)>> \o rest, st)
+                             ELSE IF v # 0 THEN Run(<<Rem(o.x)>> \o rest, st)
+                             ELSE IF o.y = 1 THEN Run(<<Upd(o.x, 1)>> \o rest, st)
+                             ELSE Run(rest, st)
+        [] o.op \in {"take", "drop"} ->
+                             LET ks == Pairs(st.map)
+                                 n == IF o.x < Len(ks) THEN o.x ELSE Len(ks)
+                                 del == IF o.op = "drop" THEN SubSeq(ks, 1, n) ELSE SubSeq(ks, n + 1, Len(ks))
+                             IN Run([i \in 1..Len(del) |-> Rem(del[i][1])] \o rest, st)
+        [] o.op = "docmd" -> Run(rest, Run(Handler("cmd", <<"cmd", o.x>>), st))
+        [] o.op = "sync"  -> Run(rest, st)
+        [] o.op = "susp"  -> Run(rest, [st EXCEPT !.susp = Append(@, [s |-> o.s, p |-> o.p])])
+        [] o.op = "fail"  -> [st EXCEPT !.ok = "fail"]
+        [] o.op = "stopi" -> [st EXCEPT !.ok = "stop"]
+
+\* one stimulus: its handler; a requested stop (outside on_start / on_stop) is followed by on_stop
+RunStimulus(k, frame, st) ==
+    LET r == Run(frame, st) IN
+    IF r.ok = "stop" /\ k \notin {"start", "stop"} THEN Run(Handler("stop", <<"stop">>), [r EXCEPT !.ok = "ok"]) ELSE r
+
+BigStepAgrees ==
+    (status # "run" /\ acts # <<>>) =>
+        LET r == RunStimulus(g0.k, g0.frame, [val |-> g0.val, map |-> g0.map, ev |-> <<>>, ok |-> "ok", susp |-> g0.pending])
+            a == acts[Len(acts)]
+        IN /\ r.ev = a.ev
+           /\ r.val = val /\ r.map = map
+           /\ (status = "idle") => (r.susp = pending)
+           /\ (r.ok = "fail") <=> (a.fl = 1)
 
 Terminal == status \in {"done", "dead"}
 =============================================================================
